@@ -143,6 +143,27 @@ ToBool(x) == IF ~ZeroFlag(x) THEN 1 ELSE 0              \* cast(): cmp_zero; set
 TruthI(x) == ~ZeroFlag(x)                               \* if/while/for/?:/&&/||: cmp_zero; je .L.else
 NotI(x) == ZeroFlag(x)                                  \* !x: cmp_zero; sete
 
+(* The operand of cmp_zero as a *register*.  A float or double lives in the low quadword of %xmm0: the low
+   FW(F) bits are the value's encoding; for a float the bits above them are DEAD - movss from memory clears
+   them, but cvtsd2ss, cvtsi2ss and the scalar arithmetic instructions leave there whatever the register held
+   before (Intel SDM: "bits 127:32 of the destination are unchanged"), e.g. the upper half of the double that
+   was just converted.  Dead(t) = the patterns the dead bits can hold (DeadW bits stand for the 32 real ones).
+   ucomiss/ucomisd read exactly the operand's format, so cmp_zero is independent of them; an "optimised" test
+   of the whole quadword (movq %xmm0,%rax; btr $sign,%rax; test %rax,%rax - MUT truth-bit-test) is not.
+   A long double is tested on the x87 stack (fldz; fucomip): no dead bits.                                    *)
+DeadW == 2
+FW(F) == 1 + F.ebits + FracBits(F)
+Dead(t) == IF t = "float" THEN 0..(Pw(DeadW) - 1) ELSE {0}
+XmmOf(t, x, gg) == EncodeN(Fmt(t), x) + gg * Pw(FW(Fmt(t)))
+ZeroFlagR(t, x, gg) ==
+  IF t = "ldouble" THEN ZeroFlag(x)
+  ELSE LET F == Fmt(t)  r == XmmOf(t, x, gg)  sign == Pw(FW(F) - 1) IN
+       IF MUT = "truth-bit-test" THEN (IF (r \div sign) % 2 = 1 THEN r - sign ELSE r) = 0
+       ELSE ZeroFlag(DecodeN(F, r % Pw(FW(F))))
+ToBoolR(t, x, gg) == IF ~ZeroFlagR(t, x, gg) THEN 1 ELSE 0
+TruthR(t, x, gg) == ~ZeroFlagR(t, x, gg)
+NotR(t, x, gg) == ZeroFlagR(t, x, gg)
+
 (* ---- comparisons ---------------------------------------------------------------------
    parse.c relational(): a > b is ND_LT(b, a), a >= b is ND_LE(b, a).
    SSE: xmm0 = lhs, xmm1 = rhs, "ucomis %xmm0, %xmm1" = flags of rhs ? lhs.
